@@ -379,7 +379,24 @@ def compare(R, op, a, b):
         r = py_eq(R, a, b)
         r = (not r) if isinstance(r, bool) else z3.Not(r)
     elif isinstance(op, ast.Is) or isinstance(op, ast.IsNot):
-        if a is None or b is None or isinstance(a, bool) or isinstance(b, bool):
+        if (isinstance(a, bool) or isinstance(b, bool)) and not (a is None or b is None) and \
+                not (isinstance(a, bool) and isinstance(b, bool)):
+            # `x is True` / `x is False`: for a Boolean x this is x == True / x == False (bool values are the two
+            # singletons); a symbolic value must not be compared by identity of the checker's own objects
+            sym, lit = (b, a) if isinstance(a, bool) else (a, b)
+            if isinstance(sym, ZV) and sym.kind == 'bool':
+                r = sym.e if lit else z3.Not(sym.e)
+            elif isinstance(sym, OptV):
+                if isinstance(sym.val, ZV) and sym.val.kind == 'bool':
+                    r = z3.And(z3.Not(sym.isnone), sym.val.e if lit else z3.Not(sym.val.e))
+                else:
+                    r = False
+            elif isinstance(sym, (ObjV, TupleV, ListV, DictV, str, int)) or \
+                    (isinstance(sym, ZV) and sym.kind != 'bool'):
+                r = False
+            else:
+                raise OutOfReach('`is` between a Boolean literal and %r' % (sym,))
+        elif a is None or b is None or isinstance(a, bool) or isinstance(b, bool):
             r = py_eq(R, a, b) if (a is None or b is None) else (a is b)
         elif isinstance(a, ObjV) and isinstance(b, ObjV):
             r = a is b
